@@ -334,14 +334,17 @@ def run_case(case, obs=None):
         return run_aba_star(case[1], case[2] if case[2] and isinstance(case[2][0], list) else [case[2]])
     fmt, data, exp, dec = build(case)
     out = []
+    buf = bytearray(data)
     try:
-        got = dec(bytearray(data))
+        got = dec(buf)
     except Exception as e:   # noqa: BLE001
         return [("%s/raises" % fmt, "%s: decoding a conformant response (%s...) raised %s: %s" % (fmt, data[:24].hex(), type(e).__name__, e))]
     if obs is not None:
         obs.append(hash(data))
         obs.append((fmt, exp, got))
     compare(exp, got, "", out, fmt)
+    if bytes(buf) != bytes(data):
+        out.append(("%s/input_buffer_modified" % fmt, "%s: decoding changed the data-in buffer it was given" % fmt))
     return out
 
 
@@ -465,6 +468,9 @@ def gen(part, tier):
         for q, t in ((1, 0x1F), (3, 5), (0, 0x0E)):
             yield ["vpd_fixed", page, {}, q, t, 16]
     elif name == "vpd_lists":
+        for n in (255, 256, 257, 600):
+            yield ["vpd80", n, 0]
+        yield ["vpd00", list(range(256)), 0]
         for n in range(0, 12):
             for tail in (0, 9):
                 yield ["vpd00", [0x00, 0x80, 0x83, 0x86, 0x89, 0xB0, 0xB1, 0xB2, 0xB3, 0xC0, 0xFF][:n], tail]
@@ -523,7 +529,7 @@ def gen(part, tier):
         for v in bits.alphabet(64):
             yield ["reportluns", [v], 0]
             yield ["reportluns", [1, v], 0]
-        for n in BIG_COUNTS:          # count boundaries (two-digit indices, byte counts around 256)
+        for n in BIG_COUNTS + (255, 256, 257):          # count boundaries (two-digit indices, byte counts / entry counts around 256)
             yield ["reportluns", [(i << 48) | (0x100 + i) for i in range(n)], 0]
             yield ["reportluns", [(i << 48) | (0x100 + i) for i in range(n)], 8]
     elif name == "rtpg":
@@ -575,6 +581,8 @@ def gen(part, tier):
         for n in range(0, 4):
             for tail in (0, 8):
                 yield ["prkeys", 0x01020304, [0x1122334455667788, 1, 0xFFFFFFFFFFFFFFFF][:n], tail]
+        for n in (255, 256, 257):
+            yield ["prkeys", 9, [0xA000 + i for i in range(n)], 0]
         for n in BIG_COUNTS:
             yield ["prkeys", 9, [0xA000 + i for i in range(n)], 0]
             yield ["prfull", 9, [[{"reservation_key": 0xB000 + i, "r_holder": i & 1, "scope": 0, "type": 5, "relative_target_port_id": i}, i % len(TIDS)]
